@@ -12,7 +12,7 @@ structure St where
   lastOld : List VPath := []
   lastNew : List VPath := []
   /-- locally originated RT-membership routes of the manager (AddVrf / DeleteVrf) -/
-  vrfSet : List Vrf := []
+  mgr : Mgr := Mgr.empty
 
 def findPath (s : St) (uid : String) : Option VPath := s.paths.find? (·.uid == nat! uid)
 def findVrf (s : St) (id : String) : Option Vrf := (s.vrfs.find? (·.1 == nat! id)).map (·.2)
@@ -50,7 +50,7 @@ def showNats (l : List Nat) : String := if l.isEmpty then "-" else joinNats l
 
 def step (s : St) (ts : List String) : St × List String :=
   match ts with
-  | ["reset"] => ({ s with tbl := Tbl.empty, rtms := [], lastOld := [], lastNew := [], vrfs := [], vrfSet := [], paths := [] }, [])
+  | ["reset"] => ({ s with tbl := Tbl.empty, rtms := [], lastOld := [], lastNew := [], vrfs := [], mgr := Mgr.empty, paths := [] }, [])
   | ["ec", e] =>
     let x := nat! e
     (s, [b2s (isTransitive x) ++ " " ++ (match rtKey x with | some k => toString k | none => "-")])
@@ -118,14 +118,15 @@ def step (s : St) (ts : List String) : St × List String :=
     | none => (s, ["bad-op"])
   | ["addvrf", v] =>
     match findVrf s v with
-    | some vr => ({ s with vrfSet := vr :: s.vrfSet }, [showNats (addVrfRtm vr)])
+    | some vr => ({ s with mgr := s.mgr.addVrf vr }, [showNats (addVrfRtm vr)])
     | none => (s, ["bad-op"])
   | ["delvrf", v] =>
-    match findVrf s v with
-    | some vr =>
-      let rest := s.vrfSet.filter (·.name != vr.name)
-      ({ s with vrfSet := rest }, [showNats (sortBy id (delVrfRtm vr rest))])
-    | none => (s, ["bad-op"])
+    let r := s.mgr.delVrf (nat! v)
+    ({ s with mgr := r.1 }, [showNats (sortBy id r.2)])
+  | ["mrecv", k, src, pref, wd] =>
+    ({ s with mgr := s.mgr.recv (nat! k) ⟨nat! src, nat! pref⟩ (b! wd) }, [])
+  | ["rdest", k] => (s, [showNats ((s.mgr.rtc (nat! k)).map (·.src))])
+  | ["rlocal", k] => (s, [b2s (scanLocal (s.mgr.rtc (nat! k)))])
   | [] => (s, [])
   | _ => (s, ["bad-op"])
 
